@@ -13,6 +13,8 @@ real and imaginary part — exact transport of doubles (`imBits` ignored when `c
 Output, one JSON object per line:
   {"id", "x": columns, "r": columns, "k", "iterations", "errors": [bits…],
    "trace": [{"x": columns, "res": bits}, …]}   -- one entry per evaluation of the stopping test
+With an input field "exact_steps": K the answer also has "exact": per column {"xs": iterates 0…K of
+textbook CG in exact rational arithmetic (rounded to doubles), "rn2": ‖r_k‖²} — see `cgExact`.
 -/
 
 open Lean (Json)
@@ -80,9 +82,17 @@ def runCase (j : Json) : E Json := do
   let s0 := initState A P b x0'
   let tolEff := tolEffs tol s0
   let states := loopStates (cond tolEff maxIters) (step A P) maxIters s0
-  let trace := states.toArray.map fun s =>
-    Json.mkObj [("x", outCols (Array.zipWith scaleR (s.cols.map (·.x)) mult)),
-                ("res", outScalar (track s))]
+  -- optional "trace_at": [k…] — print the iterates of these states only (large sizes); the tracked
+  -- residual and the per-column residual norms are printed for every state
+  let traceAt : Option (Array Nat) := match j.getObjVal? "trace_at" with
+    | .ok (.arr a) => some (a.filterMap fun v => v.getNat?.toOption)
+    | _ => none
+  let keep (i : Nat) : Bool := match traceAt with | none => true | some ks => ks.contains i
+  let trace := states.toArray.mapIdx fun i s =>
+    if keep i then
+      Json.mkObj [("x", outCols (Array.zipWith scaleR (s.cols.map (·.x)) mult)),
+                  ("res", outScalar (track s))]
+    else Json.mkObj [("res", outScalar (track s))]
   let colRes := states.toArray.map fun s => Json.arr (s.cols.map fun c => outScalar (norm c.r))
   -- which guarded branches the steps went through (instrumentation only; all but the last state
   -- of the trace are stepped)
@@ -109,6 +119,121 @@ def runCase (j : Json) : E Json := do
 
 end
 
+
+/-! ## exact side
+
+`cgExact` is textbook preconditioned CG — the recurrence `cgSeq` of `Lemmas/CGOptimal.lean`
+(`cgInit`, `cgStep`, `cgAlpha`) — transcribed over `ℚ[i]` (pairs of core `Rat`; doubles are rationals,
+so the inputs enter EXACTLY).  By `C12_is_textbook_cg` / `C12_optimal_inputs` / `cg_optimal_krylov`
+its `k`-th iterate is what the model returns in exact arithmetic while no guard acts, and it is the
+minimiser of the energy over `x0 + K_k(MA, M r0)`.  The transcription itself (≈ 15 lines) is read,
+not proved.  Output: the iterates rounded to the nearest double and `‖r_k‖²`. -/
+
+structure QC where
+  re : Rat
+  im : Rat
+
+namespace QC
+def zero : QC := ⟨0, 0⟩
+def add (a b : QC) : QC := ⟨a.re + b.re, a.im + b.im⟩
+def sub (a b : QC) : QC := ⟨a.re - b.re, a.im - b.im⟩
+def mul (a b : QC) : QC := ⟨a.re * b.re - a.im * b.im, a.re * b.im + a.im * b.re⟩
+def conj (a : QC) : QC := ⟨a.re, -a.im⟩
+def isZero (a : QC) : Bool := a.re == 0 && a.im == 0
+def div (a b : QC) : QC :=
+  let d := b.re * b.re + b.im * b.im
+  ⟨(a.re * b.re + a.im * b.im) / d, (a.im * b.re - a.re * b.im) / d⟩
+end QC
+
+def pow2 (k : Int) : Rat :=
+  if k ≥ 0 then (((2 : Nat) ^ k.toNat : Nat) : Rat) else 1 / (((2 : Nat) ^ (-k).toNat : Nat) : Rat)
+
+/-- the rational number a double (given by its bit pattern) denotes -/
+def ratOfBits (n : Nat) : Rat :=
+  let s : Nat := n >>> 63
+  let e : Nat := (n >>> 52) &&& 0x7FF
+  let m : Nat := n &&& (2 ^ 52 - 1)
+  let mant : Nat := if e == 0 then m else m + 2 ^ 52
+  let ex : Int := if e == 0 then -1074 else (e : Int) - 1075
+  let v : Rat := (mant : Rat) * pow2 ex
+  if s == 1 then -v else v
+
+/-- nearest double (ties up; subnormal results are not produced by the streams) -/
+def floatOfRat (q : Rat) : Float :=
+  if q == 0 then 0.0 else
+  let neg := q < 0
+  let n : Nat := q.num.natAbs
+  let d : Nat := q.den
+  let e0 : Int := (Nat.log2 n : Int) - (Nat.log2 d : Int)
+  let s : Int := 54 - e0          -- n * 2^s / d  has 54 or 55 bits
+  let t : Nat := if s ≥ 0 then (n <<< s.toNat) / d else n / (d <<< (-s).toNat)
+  let extra : Nat := Nat.log2 t - 53          -- bits beyond 54
+  let t2 := t >>> extra                        -- 54 bits
+  let m := (t2 + 1) / 2                        -- 53 bits (or 2^53)
+  let f := (Float.ofNat m).scaleB (-(s - (extra : Int) - 1))
+  if neg then -f else f
+
+def jQC (j : Json) : E QC := do
+  match ← jArr j with
+  | #[a, b] => pure ⟨ratOfBits (← jNat a), ratOfBits (← jNat b)⟩
+  | _ => throw "scalar = [reBits, imBits]"
+def jVecQ (j : Json) : E (Array QC) := do (← jArr j).mapM jQC
+def jMatQ (j : Json) : E (Array (Array QC)) := do (← jArr j).mapM jVecQ
+
+def qDotc (u v : Array QC) : QC :=
+  (Array.zipWith (fun a b => QC.mul (QC.conj a) b) u v).foldl QC.add QC.zero
+def qMatVec (A : Array (Array QC)) (v : Array QC) : Array QC :=
+  A.map fun row => (Array.zipWith QC.mul row v).foldl QC.add QC.zero
+def qAxpy (a : QC) (x y : Array QC) : Array QC := Array.zipWith (fun xi yi => QC.add yi (QC.mul a xi)) x y
+
+structure QState where
+  x : Array QC
+  r : Array QC
+  p : Array QC
+  γ : QC
+
+/-- `cgInit` -/
+def qInit (A : Array (Array QC)) (P : Option (Array (Array QC))) (b x0 : Array QC) : QState :=
+  let r0 := Array.zipWith QC.sub b (qMatVec A x0)
+  let z0 := match P with | none => r0 | some M => qMatVec M r0
+  ⟨x0, r0, z0, qDotc r0 z0⟩
+
+/-- `cgStep` (a vanished `γ` — residual zero — leaves the state unchanged) -/
+def qStep (A : Array (Array QC)) (P : Option (Array (Array QC))) (s : QState) : QState :=
+  if s.γ.isZero then s else
+  let Ap := qMatVec A s.p
+  let α := QC.div s.γ (qDotc s.p Ap)
+  let r1 := qAxpy (QC.sub QC.zero α) Ap s.r
+  let z1 := match P with | none => r1 | some M => qMatVec M r1
+  let γ1 := qDotc r1 z1
+  ⟨qAxpy α s.p s.x, r1, qAxpy (QC.div γ1 s.γ) s.p z1, γ1⟩
+
+/-- states `0 … K` of one column -/
+def cgExact (A : Array (Array QC)) (P : Option (Array (Array QC))) (b x0 : Array QC) (K : Nat) :
+    Array QState := Id.run do
+  let mut s := qInit A P b x0
+  let mut out := #[s]
+  for _ in [0:K] do
+    s := qStep A P s
+    out := out.push s
+  return out
+
+def exactJson (j : Json) : E Json := do
+  let get (k : String) : E Json :=
+    match j.getObjVal? k with | .ok v => pure v | .error _ => throw s!"missing field {k}"
+  let K ← jNat (← get "exact_steps")
+  let A ← jMatQ (← get "A")
+  let P ← match (← get "P") with | .null => pure none | p => do pure (some (← jMatQ p))
+  let b ← jMatQ (← get "b")
+  let x0 ← match (← get "x0") with
+    | .null => pure (b.map fun c => c.map fun _ => QC.zero)
+    | x => jMatQ x
+  let cols := Array.zipWith (fun bj xj => cgExact A P bj xj K) b x0
+  let outQ (a : QC) : Json := Json.arr #[outBits (floatOfRat a.re), outBits (floatOfRat a.im)]
+  pure <| Json.arr <| cols.map fun states => Json.mkObj [
+    ("xs", Json.arr (states.map fun s => Json.arr (s.x.map outQ))),
+    ("rn2", Json.arr (states.map fun s => outBits (floatOfRat (qDotc s.r s.r).re)))]
+
 def handle (line : String) : Json :=
   match Json.parse line with
   | .error e => Json.mkObj [("error", Json.str s!"parse: {e}")]
@@ -116,8 +241,13 @@ def handle (line : String) : Json :=
     let id := (j.getObjVal? "id").toOption.getD Json.null
     let isC := match j.getObjVal? "complex" with | .ok (.bool true) => true | _ => false
     let r := if isC then runCase CFloat j else runCase Float j
+    let ex : Option Json := match j.getObjVal? "exact_steps" with
+      | .ok _ => (match exactJson j with | .ok v => some v | .error e => some (Json.str s!"error: {e}"))
+      | .error _ => none
     match r with
-    | .ok (.obj kvs) => Json.obj (kvs.insert "id" id)
+    | .ok (.obj kvs) =>
+      let kvs := kvs.insert "id" id
+      Json.obj (match ex with | some v => kvs.insert "exact" v | none => kvs)
     | .ok o => o
     | .error e => Json.mkObj [("id", id), ("error", Json.str e)]
 
